@@ -168,7 +168,12 @@ func (g *Gen) tplMetaOps() []L.Stmt {
 			out = append(out, emit(call(name("pcall"), fn(nil, false, blk(assign1(field(operand(l), k), num(float64(i))), ret(call(name("rawget"), name("sink"), str(k))))))))
 		case 11:
 			// call in expression, statement and tail position
-			switch g.n(3, "callpos") {
+			switch g.n(5, "callpos") {
+			case 3:
+				// through the host-side call paths
+				out = append(out, emit(call(name("pcall"), operand(l), str("via pcall"), num(2))))
+			case 4:
+				out = append(out, emit(call(name("pcall"), name("hostcall"), operand(l), str("via host Call"))))
 			case 0:
 				out = append(out, protect(call(operand(l), num(1), num(2))))
 			case 1:
@@ -190,8 +195,9 @@ func (g *Gen) tplMetaOps() []L.Stmt {
 			}
 		case 14:
 			// __call as a for-in iterator
-			it := call(name("setmetatable"), tbl(), tbl(kv(str("__call"), fn([]string{"self", "s", "c"}, false, blk(emit(str("iter"), name("c")), ifs(bin("<", name("c"), name("s")), blk(ret(bin("+", name("c"), num(1)))), nil))))))
+			it := call(name("setmetatable"), tbl(), tbl(kv(str("__call"), fn([]string{"self", "s", "c"}, false, blk(emit(str("iter"), name("self"), name("c")), ifs(bin("<", name("c"), name("s")), blk(ret(bin("+", name("c"), num(1)))), nil))))))
 			out = append(out, &L.GenForStmt{Names: []string{"ii"}, Exprs: []L.Expr{it, num(2), num(0)}, Body: blk(emit(str("body"), name("ii")))})
+			out = append(out, emit(call(name("pcall"), fn(nil, false, blk(&L.GenForStmt{Names: []string{"zi"}, Exprs: []L.Expr{operand(l), num(1), num(0)}, Body: blk(emit(str("zoo iterator body"), name("zi")), &L.BreakStmt{})})))))
 			g.class("meta:__call_iterator")
 		default:
 			// __index chains
